@@ -55,9 +55,10 @@ PROPOSED_KNOWN = [
               "name: two imports on one semver track, a later higher version retargets only one of them; re-aggregating "
               "the same requirements changes the result"),
     dict(property="C09", id="interface-id-under-two-import-names", status="known",
-         signature="remap_interface unifies interfaces by identifier: one interface identifier contributed under two import "
-                   "names that are not on one track makes both imports share ONE interface, but only when the second name is "
-                   "new at that moment",
+         signature="remap_interface unifies interfaces by identifier and by foreign identity (`remapped`): an interface whose "
+                   "identifier is not on the track of its import name (or one foreign interface contributed under two import "
+                   "names of different tracks), while the identifier occurs elsewhere in the multiset, makes two imports "
+                   "share ONE interface - but only when the second name is new at that moment",
          witness="agg\t3\tF 0 0 - ; I x:y/z@2.0.0 0 1 f f:0\tF 0 0 - ; I x:y/z@2.0.0 0 1 g f:0\tF 0 0 - ; I - 0 1 h f:0\t3\tx:y/z@2.0.0 0 i:0\tbar 1 i:0\tbar 2 i:0",
          text="an interface whose identifier equals that of an already aggregated interface, contributed under another import "
               "name, is merged into the existing interface and both import names then denote the same interface; if the other "
@@ -184,28 +185,45 @@ def alias_prim_sig(case_fields):
     return False
 
 
-def top_iface_ids(case_fields):
+def compat_names(a, b):
+    return a == b or (track_of(a) is not None and track_of(a) == track_of(b))
+
+
+def contributor_ifaces(case_fields):
+    """per contributor: (import name, top-level interface id or None, ids of `use`d interfaces, foreign identity)"""
     k = int(case_fields[1]); progs = case_fields[2:2 + k]
     m = int(case_fields[2 + k]); out = []
     for c in case_fields[3 + k:3 + k + m]:
         name, ti, kd = c.split(" ")
-        iid = None
+        iid, used = None, []
         if kd.startswith("i:"):
-            ifs = [d for d in progs[int(ti)].split(" ; ") if d.startswith("I ")]
-            iid = ifs[int(kd[2:])].split(" ")[1]
-            iid = None if iid == "-" else iid
-        out.append((name, iid))
+            ifs = [d.split(" ") for d in progs[int(ti)].split(" ; ") if d.startswith("I ")]
+            me = ifs[int(kd[2:])]
+            iid = None if me[1] == "-" else me[1]
+            for j in range(int(me[2])):
+                dep = ifs[int(me[4 + 3 * j][1:])]
+                if dep[1] != "-":
+                    used.append(dep[1])
+        out.append((name, iid, used, (ti, kd)))
     return out
 
 
 def shared_id_sig(case_fields, spec_canon):
-    """one interface identifier (same name or same semver track) contributed under import names of different tracks"""
-    ids = top_iface_ids(case_fields)
-    for a in range(len(ids)):
-        for b in range(a + 1, len(ids)):
-            ia, ib = ids[a][1], ids[b][1]
-            if ia and ib and spec_canon[a] != spec_canon[b] and (ia == ib or (track_of(ia) is not None and track_of(ia) == track_of(ib))):
+    """one interface reachable under two import names that are not on one track: the same foreign interface of one
+    collection contributed under two such names, or an interface whose identifier is not on the track of its import
+    name while that identifier (or a compatible one) occurs elsewhere in the multiset (as identifier, as a `use`d
+    interface, or as an import name)"""
+    cs = contributor_ifaces(case_fields)
+    for a in range(len(cs)):
+        for b in range(len(cs)):
+            if a == b:
+                continue
+            na, ia, ua, fa = cs[a]; nb, ib, ub, fb = cs[b]
+            if fa == fb and fa[1].startswith("i:") and spec_canon[a] != spec_canon[b]:
                 return True
+            if ia and not compat_names(ia, na):
+                if any(x and compat_names(ia, x) for x in [ib, nb] + ub):
+                    return True
     return False
 
 
@@ -324,7 +342,8 @@ ALLOWED = {
                                    "succeeds-despite-conflict", "merged-tree-not-union", "order-dependent-result"},
     "component-imports-united": {"upper-bound", "upper-bound-spec", "order-dependent-result"},
     "remapped-defined-onto-primitive-panic": {"panic", "order-dependent-success", "fails-without-conflict"},
-    "interface-id-under-two-import-names": {"order-dependent-result", "merged-tree-not-union", "export-order-not-first-seen"},
+    "interface-id-under-two-import-names": {"order-dependent-result", "merged-tree-not-union", "export-order-not-first-seen",
+                                            "order-dependent-success", "fails-without-conflict", "succeeds-despite-conflict"},
     "owner-import-bypasses-canonical-name": {"two-imports-on-one-track", "not-idempotent", "canonical-not-highest",
                                              "order-dependent-result", "unexpected-import"},
 }
@@ -462,7 +481,8 @@ def run(res, tier, seed, replay):
             "verdicts merged <: required)",
             "AggregatorSpec.v / SubSpec.v are the specification (highest-on-track, union merge, conflict, declarative subtyping)",
             "id_arena / indexmap / HashMap semantics are modelled (identifier equality includes the arena; IndexMap keeps "
-            "insertion order; the one HashMap that is iterated takes its order as an argument, run with identity and reversal)"]))
+            "insertion order; the `interfaces` table that is iterated takes its order as an argument of the model, run with "
+            "identity and reversal)"]))
     res.assumptions = [
         "type collections are acyclic and closed (always true when built through add_*)",
         "each contributor collection has its own arena tag; collections shared by two contributors are the same value",
